@@ -200,7 +200,7 @@ def run_harness(cmd, args, timeout=1800):
         stdout, stderr, rcode, timed_out = e.stdout or b"", e.stderr or b"", -1, True
     lines = []
     inflight, hung = None, None
-    for ln in stdout.decode("utf-8", "replace").splitlines():
+    for ln in stdout.decode("utf-8", "replace").split("\n"):      # not splitlines(): U+0085 and friends inside a JSON string are not line ends
         ln = ln.strip()
         if ln.startswith("{"):
             try:
